@@ -17,6 +17,8 @@ package main
 //   tuple                              Tuple
 
 import (
+	"os"
+	"runtime/debug"
 	"fmt"
 	"go/types"
 	"sort"
@@ -229,7 +231,21 @@ func (e *Eng) bread(n *bnode, i *Term) *Term {
 			}
 			return tb.Const(8, 0)
 		}
-		if len(n.conc) > 512 {
+		lo, hi := 0, len(n.conc)-1
+		if e.path != nil {
+			if iv := e.path.facts[i.ID]; iv != nil {
+				if int(iv.ulo) > lo && iv.ulo < uint64(len(n.conc)) {
+					lo = int(iv.ulo)
+				}
+				if iv.uhi < uint64(hi) {
+					hi = int(iv.uhi)
+				}
+			}
+		}
+		if hi-lo > 1024 {
+			if os.Getenv("SYMGO_DEBUG") != "" {
+				fmt.Fprintf(os.Stderr, "large table read: i=%s lo=%d hi=%d\n%s\n", i.strDepth(4), lo, hi, debug.Stack())
+			}
 			panic(pathEnd{kind: endUnsupported, msg: "symbolic index into a large concrete table"})
 		}
 		k := readKey{n, i.ID}
@@ -237,7 +253,7 @@ func (e *Eng) bread(n *bnode, i *Term) *Term {
 			return r
 		}
 		r := tb.Const(8, 0)
-		for j := len(n.conc) - 1; j >= 0; j-- {
+		for j := hi; j >= lo; j-- {
 			r = tb.Ite(tb.Eq(i, tb.Const(64, uint64(j))), tb.Const(8, uint64(n.conc[j])), r)
 		}
 		e.readMemo[k] = r
@@ -251,6 +267,12 @@ func (e *Eng) bread(n *bnode, i *Term) *Term {
 	switch n.kind {
 	case nkStore:
 		c := tb.Eq(n.idx, i)
+		if !c.IsConst() && e.path != nil {
+			// interval facts of the path condition often settle "symbolic index = constant"
+			if v, ok := e.path.facts.decide(c); ok {
+				c = tb.Bool(v)
+			}
+		}
 		if c.IsTrue() {
 			r = n.val
 		} else if c.IsFalse() {
